@@ -231,3 +231,9 @@ Fixpoint closedb (gone : list nat) (s : spl) : bool :=
   | Outer l => forallb (closedb gone) l
   | Inner l => forallb (fun f => memb f gone) (flat_map leaves l) || forallb (fun f => negb (memb f gone)) (flat_map leaves l)
   end.
+
+(* the declared nesting of the outputs is computed from the combiner as written; it is the nesting of the value
+   when that agrees with the computation over all linked fields.  The negation is the input class of finding F02b
+   (declared output type of split().combine() does not match the value; end to end only). *)
+Definition type_depth_okb (s : spl) (comb : list nat) : bool :=
+  option_eqb Nat.eqb (state_depth s comb) (state_depth s (linked s comb)).
